@@ -16,6 +16,9 @@ CLAIMED = {
  "C04": dict(engine="wire-sim", ref="DESIGN.md 3 C04", technique="deterministic simulation: generated handler programs x request sequences x seeded request fragmentation and write backpressure against the real server; independent strict response reader + net/http as decoders",
    text="Seeded exploration of handler programs (status x header ops x every body mode incl. streams of known/unknown length with awkward readers and the hijacked chunked writer) over sequences of requests on one simulated connection; every response must decode, with the harness's strict reader and with net/http, to exactly the program's status, header fields, body and trailers, bodiless statuses carry no body, and each response starts where the previous one ended.",
    note=SIMNOTE),
+ "C19": dict(engine="wire-sim", ref="DESIGN.md 3 C19", technique="deterministic simulation: generated connection histories with per-request fault outcomes and end-of-connection kinds on the fake clock, recording tracer, two-state automaton + stage-order oracle over the call log",
+   text="Seeded exploration of connection histories (1..5 requests x outcome per request incl. injected FIN/RST mid-message, write errors, hijack, panic+recovery x end of connection incl. idle timeout on the simulated clock and the return-to-transport mode) against the real server loop with a recording tracer; Start/Finish must alternate with no orphan Finish, one pair per handled request carrying its data, stage events ordered and closed.",
+   note=SIMNOTE),
 }
 PENDING = {
  "C03": "check not built yet in this session (planned: wire-sim, DESIGN.md 3 C03)",
@@ -25,5 +28,4 @@ PENDING = {
  "C11": "check not built yet in this session (planned: wire-sim client + e2e, DESIGN.md 3 C11)",
  "C15": "check not built yet in this session (planned: baton-sim, DESIGN.md 3 C15)",
  "C18": "check not built yet in this session (planned: conc-sim, DESIGN.md 3 C18)",
- "C19": "check not built yet in this session (planned: wire-sim, DESIGN.md 3 C19)",
 }
